@@ -7,4 +7,5 @@ INVARIANT DontCareAccepted
 INVARIANT RegionsCovered
 INVARIANT NothingBeyond
 INVARIANT ContainersInSlots
+INVARIANT SrkRegsTile
 CHECK_DEADLOCK TRUE
